@@ -123,13 +123,14 @@ func uncommitted(s site, mut string, orig, tampered *lib.Bundle) (bool, string) 
 	return false, ""
 }
 
-// knownRootCause maps accepted tamperings that share one cause in juno to one stable Sig.
 var (
 	reDeclareV0  = regexp.MustCompile(`^field:\.Block\.Transactions\[\]<Declare v[123]>\.Version:zero$`)
 	reL1NoNonce  = regexp.MustCompile(`^field:\.Block\.Transactions\[\]<L1Handler v0>\.Nonce:setnil$`)
 	reDeployAny  = regexp.MustCompile(`^field:\.Block\.Transactions\[\]<Deploy v[01]>\.`)
 	reDeclareV0F = regexp.MustCompile(`^field:\.Block\.Transactions\[\]<Declare v0>\.`)
 )
+
+const oldRootSig = "new-backend-opens-state-at-supplied-old-root"
 
 // knownRootCause maps accepted tamperings that share one cause in juno to one stable Sig.
 func knownRootCause(tc tamperCase, orig *lib.Bundle) (string, string) {
@@ -140,6 +141,8 @@ func knownRootCause(tc tamperCase, orig *lib.Bundle) (string, string) {
 	case reL1NoNonce.MatchString(tc.Name):
 		return "l1handler-nonce-removed-skips-tx-hash-verification",
 			"an L1-handler transaction whose Nonce is removed (nil) is not hash-verified in a block of any protocol version (l1HandlerTransactionHash returns the declared hash), so the block is stored with a transaction that does not match its hash"
+	case tc.Name == "field:.SU.OldRoot:zero":
+		return oldRootSig, "a block offered with StateUpdate.OldRoot = 0 instead of the head's state root was stored: the new state backend opens the state at the supplied OldRoot (zero = empty tries), so verifyComm compares that root with itself, and the diff happened to rewrite every leaf the empty tries lack"
 	case reDeployAny.MatchString(tc.Name), tc.Name == "compound:tx-replaced-by-legacy-deploy":
 		return "legacy-deploy-tx-hash-never-verified",
 			"the hash of a legacy Deploy transaction is never recomputed, in a block of any protocol version (core.TransactionHash returns the declared hash): its fields can be changed, and any transaction with an empty signature can be replaced by an arbitrary Deploy transaction carrying the same hash, and the block is stored"
@@ -285,12 +288,12 @@ func headOf(n *node) (int64, string) {
 // ---- tamper cases ----------------------------------------------------------------------------
 
 type tamperCase struct {
-	Name       string // stable name (Sig component)
-	Detail     string // concrete path / description
-	Bundle     *lib.Bundle
-	MustReject bool
-	Why        string // reason when MustReject is false
-	ObserveOnly bool  // outcome is recorded but never a violation
+	Name        string // stable name (Sig component)
+	Detail      string // concrete path / description
+	Bundle      *lib.Bundle
+	MustReject  bool
+	Why         string // reason when MustReject is false
+	ObserveOnly bool   // outcome is recorded but never a violation
 }
 
 func rehash(g *lib.ChainGen, b *lib.Bundle) bool {
@@ -476,6 +479,11 @@ func rehashCases(g *lib.ChainGen, idx int) []tamperCase {
 		c := b.Clone()
 		feltInc(c.SU.OldRoot)
 		add("oldroot", "state update's old root changed (not part of any hash)", c)
+	}
+	for _, v := range []string{"0.15.0", "1.0.0"} {
+		c := b.Clone()
+		c.Block.ProtocolVersion = v
+		add("unsupported-version", "protocol version set to one juno does not support ("+v+"), block hash recomputed", c)
 	}
 	d := b.SU.StateDiff
 	for _, a := range firstKeys(d.Nonces) {
@@ -842,3 +850,80 @@ func checkHeadState(res *lib.Result, n *node, g *lib.ChainGen, task chainTask) {
 }
 
 var _ = bytes.Equal
+
+// runOldRootDirected is a directed history for the one auxiliary field no hash covers:
+// StateUpdate.OldRoot. Block 0 deploys one contract, block 1 touches that contract only. Block 1 is
+// offered with OldRoot = 0 (the root of the EMPTY state) and with OldRoot = its own new root.
+// Expected: rejected — the diff must be applied to the node's current state, whose root is block
+// 0's root. (A backend that opens the state at the caller-supplied OldRoot instead of checking it
+// against the head applies the diff to the empty state; because block 1 rewrites every leaf the
+// empty contract trie lacks, the declared new root still comes out.)
+func runOldRootDirected(f lib.Flags, res *lib.Result, dstNew bool) {
+	task := chainTask{Chain: -1, DstNew: dstNew, Slot: 1}
+	opt := lib.DefaultGenOptions()
+	opt.NoClasses = true
+	g := lib.NewChainGen(lib.NewRNG(f.Seed).Fork(4242), false, opt)
+	a := g.Addr(4)
+	cls := g.ClassHash(0)
+	emptyDiff := func() *core.StateDiff { d := core.EmptyStateDiff(); return &d }
+	d0 := emptyDiff()
+	d0.DeployedContracts[a] = &cls
+	d0.StorageDiffs[a] = map[felt.Felt]*felt.Felt{*lib.F(1): lib.F(5)}
+	d1 := emptyDiff()
+	d1.Nonces[a] = lib.F(1)
+	d1.StorageDiffs[a] = map[felt.Felt]*felt.Felt{*lib.F(1): lib.F(6)}
+	for i, d := range []*core.StateDiff{d0, d1} {
+		if _, err := g.Next(&lib.BlockSpec{Version: []string{"0.13.2", "0.14.0"}[i], Diff: d, NoTxs: true}); err != nil {
+			res.Note("generator (oldroot-directed): %v", err)
+			return
+		}
+	}
+	n := openNode(g, dstNew, memory.New())
+	if r := offer(n, g.Bundles[0]); r.err != nil {
+		res.Note("oldroot-directed: block 0 rejected: %v", r.err)
+		return
+	}
+	backend := "legacy"
+	if dstNew {
+		backend = "new"
+	}
+	base := n.db.Copy()
+	before := dbDigest(n.db)
+	for _, variant := range []string{"zero", "own-new-root"} {
+		c := g.Bundles[1].Clone()
+		if variant == "zero" {
+			c.SU.OldRoot = lib.F(0)
+		} else {
+			r := *c.SU.NewRoot
+			c.SU.OldRoot = &r
+		}
+		r := offer(n, c)
+		res.Case(fmt.Sprintf("oldroot-directed/%v/%s", dstNew, variant), true)
+		res.Hit("tamper-directed-oldroot")
+		res.Hit("outcome-" + errClass(r.err))
+		if r.err == nil {
+			// what the node now holds, compared with a node that stored the valid block
+			ref := openNode(g, dstNew, base.Copy())
+			_ = offer(ref, g.Bundles[1])
+			diff := dbDiff(ref.db, n.db)
+			revertErr := n.bc.RevertHead()
+			what := fmt.Sprintf("block 1 offered with StateUpdate.OldRoot = %s instead of the head's state root was stored by the %s backend "+
+				"(state.New opens the state at the supplied OldRoot, so verifyComm compares that root with itself); keys differing from a node "+
+				"that stored the valid block: %s; RevertHead afterwards: %v", variant, backend, diff, revertErr)
+			res.Violate(lib.Violation{Sig: oldRootSig, What: what,
+				Replay: replay{Task: task, Seed: f.Seed, Tier: f.Tier, Position: 1, Case: "directed:oldroot-" + variant,
+					Detail: "chain: block 0 deploys contract " + a.String() + " and writes slot 1; block 1 sets its nonce and rewrites slot 1; block 1 offered with OldRoot " + variant}})
+			n = openNode(g, dstNew, base.Copy())
+			continue
+		}
+		if after := dbDigest(n.db); after != before {
+			res.Violate(lib.Violation{Sig: "rejected-block-has-effect:" + errClass(r.err), What: "oldroot-directed: rejected block changed the database: " + dbDiff(base, n.db),
+				Replay: replay{Task: task, Seed: f.Seed, Tier: f.Tier, Position: 1, Case: "directed:oldroot-" + variant}})
+			n = openNode(g, dstNew, base.Copy())
+		}
+	}
+	if r := offer(n, g.Bundles[1]); r.err != nil {
+		res.Violate(lib.Violation{Sig: "valid-block-rejected", What: fmt.Sprintf("oldroot-directed: valid block 1 rejected by the %s backend: %v", backend, r.err),
+			Replay: replay{Task: task, Seed: f.Seed, Tier: f.Tier, Position: 1, Case: "valid"}})
+	}
+}
